@@ -1,5 +1,5 @@
 #!/usr/bin/env python3
-# For each round-4 pair (m<k>.diff defective, f<k>.diff repaired): obligations that fire on m but not on f.
+# For each pair under /verif/pairs (defect.diff, repaired.diff): obligations that fire on m but not on f.
 import subprocess,sys,os,re,json
 os.chdir('/verif')
 env=dict(os.environ)
@@ -16,16 +16,18 @@ def run(diff):
     return res
 ids=sys.argv[1:] or ['C%02d'%i for i in range(1,21)]
 summary=[]
+import glob
 for pid in ids:
-    for k in (1,2,3):
-        m='/verif/pairs/%s-r4-%d/defect.diff'%(pid,k); f='/verif/pairs/%s-r4-%d/repaired.diff'%(pid,k)
+    for d in sorted(glob.glob('/verif/pairs/%s-r*-*'%pid)):
+        k=os.path.basename(d)[len(pid)+1:]
+        m=d+'/defect.diff'; f=d+'/repaired.diff'
         if not (os.path.exists(m) and os.path.exists(f)): print(pid,k,'missing'); continue
         rm,rf=run(m),run(f)
         if rm is None or rf is None: print(pid,k,'APPLY-FAIL',rm is None, rf is None); continue
         only=rm-rf
         own=[x for x in only if pid in x[1].split(',')]
         verdict='DISCRIMINATES(own)' if own else ('discriminates(other)' if only else ('both-silent' if not rm else 'NO-DISCRIMINATION'))
-        print('%s m%d: m fires %d, f fires %d, only-on-m %d (own %d): %s'%(pid,k,len(rm),len(rf),len(only),len(own),verdict))
+        print('%s %s: m fires %d, f fires %d, only-on-m %d (own %d): %s'%(pid,k,len(rm),len(rf),len(only),len(own),verdict))
         for x in sorted(own)[:2]: print('      own:',x[0],x[2][:120])
         if not own:
             for x in sorted(only)[:2]: print('      other:',x[0],x[2][:120])
